@@ -94,3 +94,16 @@ func replayFile(prop, path string) int {
 	}
 	return code
 }
+
+// lastAttempt extracts the last announced attempt from a worker's stderr tail.
+func lastAttempt(tail string) string {
+	i := strings.LastIndex(tail, "ATTEMPT ")
+	if i < 0 {
+		return "(unknown attempt)"
+	}
+	l := tail[i+8:]
+	if j := strings.Index(l, "\n"); j >= 0 {
+		l = l[:j]
+	}
+	return l
+}
